@@ -1,12 +1,12 @@
 //go:build verif
 
-// C19 — formatting preserves the syntax tree.
-package c19
+// C20 — formatting is idempotent.
+package c20
 
 import (
+	"bytes"
 	"fmt"
 	"os"
-	"regexp"
 	"runtime/debug"
 	"sort"
 	"strings"
@@ -16,13 +16,12 @@ import (
 	"github.com/goplus/xgo/format"
 	"pgregory.net/rapid"
 
-	"verif/internal/astx"
 	"verif/internal/gen/fmtin"
 	"verif/internal/vk"
 )
 
 func TestMain(m *testing.M) {
-	vk.Main(m, "C19", "exploration", "TODO")
+	vk.Main(m, "C20", "exploration", "TODO")
 }
 
 type Case struct {
@@ -34,44 +33,11 @@ type Case struct {
 type info struct {
 	rejected string
 	shapes   []string
+	changed  bool // the first pass changed the text
 	excluded string // steered away from a listed finding that would kill the process
 	xgo      []string
 	edges    map[string]bool
 	hash     uint64
-}
-
-var idx = regexp.MustCompile(`\[\d+\]`)
-
-// signature turns a FormatEqual path into a stable class: the last two "<Kind>.Field" steps and the
-// kind of difference, without indices and values.
-func signature(d string) string {
-	path, msg, _ := strings.Cut(d, ": ")
-	path = idx.ReplaceAllString(path, "")
-	parts := strings.Split(path, "<")
-	if len(parts) > 1 {
-		parts = parts[len(parts)-1:]
-	}
-	for i, p := range parts {
-		if j := strings.Index(p, ">"); j >= 0 {
-			parts[i] = p[:j] + p[j+1:]
-		}
-	}
-	kind := msg
-	switch {
-	case strings.Contains(msg, "nil vs non-nil"), strings.Contains(msg, "one side is nil"):
-		kind = "nil-vs-non-nil"
-	case strings.HasPrefix(msg, "length"):
-		kind = "length"
-	case strings.HasPrefix(msg, "imports"):
-		kind = "imports"
-	case strings.HasPrefix(msg, "*ast."): // another kind of node: the kinds say it all
-		return strings.ReplaceAll(strings.ReplaceAll(msg, "*ast.", ""), " ", "")
-	case strings.HasPrefix(msg, `"`):
-		kind = "string"
-	default:
-		kind = "value"
-	}
-	return strings.Join(parts, "/") + ":" + strings.ReplaceAll(kind, " ", "")
 }
 
 // cls builds the verdict class: a source that shows the shape of a listed finding fails as
@@ -106,19 +72,39 @@ func check(c Case) (v *vk.Verdict, in info) {
 	in.shapes = fmtin.Shapes(f1, fset1, c.Src)
 	out, err := format.Source(c.Src, c.Class)
 	if err != nil {
-		return vk.Bad(in.cls("format-error", ""), "format.Source fails on a source that parses: %v", err), in
+		in.rejected = "first-pass-fails" // C19's clause
+		return nil, in
 	}
-	f2, _, err := fmtin.Parse(out, c.Class)
+	in.changed = !bytes.Equal(out, c.Src)
+	out2, err := format.Source(out, c.Class)
 	if err != nil {
-		return vk.Bad(in.cls("output-does-not-parse", ""), "%v\n--- output:\n%s", err, fmtin.Short(string(out), 1500)), in
+		return vk.Bad(in.cls("second-pass-error", ""), "the formatted text is rejected by the second pass: %v\n--- first pass:\n%s", err, fmtin.Short(string(out), 1500)), in
 	}
-	if d := astx.FormatEqual(f1, f2); d != "" {
-		return vk.Bad(in.cls("tree-differs", signature(d)), "%s\n--- output:\n%s", d, fmtin.Short(string(out), 1500)), in
+	if !bytes.Equal(out, out2) {
+		return vk.Bad(in.cls("not-idempotent", ""), "%s", diffLines(out, out2)), in
 	}
 	return nil, in
 }
 
-var oracle = vk.Register("fmt-tree", func(c Case) *vk.Verdict { v, _ := check(c); return v })
+func diffLines(a, b []byte) string {
+	la, lb := strings.Split(string(a), "\n"), strings.Split(string(b), "\n")
+	i := 0
+	for i < len(la) && i < len(lb) && la[i] == lb[i] {
+		i++
+	}
+	j, k := len(la), len(lb)
+	for j > i && k > i && la[j-1] == lb[k-1] {
+		j--
+		k--
+	}
+	lo := i - 2
+	if lo < 0 {
+		lo = 0
+	}
+	return fmt.Sprintf("line %d:\n--- pass 1:\n%s\n--- pass 2:\n%s", i+1, fmtin.Short(strings.Join(la[lo:j], "\n"), 700), fmtin.Short(strings.Join(lb[lo:k], "\n"), 700))
+}
+
+var oracle = vk.Register("fmt-twice", func(c Case) *vk.Verdict { v, _ := check(c); return v })
 
 type failer interface {
 	Fatalf(string, ...any)
@@ -143,7 +129,7 @@ func run(t failer, c Case, labels ...string) {
 		vk.R.Case(false, "")
 		return
 	}
-	vk.R.Case(len(in.xgo) > 0, string(c.Src))
+	vk.R.Case(in.changed, string(c.Src))
 	for _, l := range labels {
 		vk.R.Class(l)
 	}
@@ -165,7 +151,7 @@ func run(t failer, c Case, labels ...string) {
 		}
 		return
 	}
-	vk.R.Check(t, "fmt-tree", c, v)
+	vk.R.Check(t, "fmt-twice", c, v)
 }
 
 // minimise removes lines (then single bytes) greedily while the verdict class stays the same.
